@@ -1888,8 +1888,13 @@ where
         // (No control operator is put in effect while they are visited -
         // a literal operand would otherwise be compared "under .and".)
         self.state.ctrl = None;
+        // The controller is matched on a copy of the validator, so that it does
+        // not see what matching the target consumed (the keys of a map)
+        let mut controller_validator = self.clone();
+        controller_validator.errors.clear();
         self.visit_type2(target)?;
-        self.visit_type2(controller)?;
+        controller_validator.visit_type2(controller)?;
+        self.errors.extend(controller_validator.errors);
         self.state.ctrl = None;
         Ok(())
       }
@@ -1897,9 +1902,13 @@ where
         // as for `.and`: both operands are visited as plain types
         self.state.ctrl = None;
         let error_count = self.errors.len();
+        // (the controller is matched on a copy, see `.and`)
+        let mut controller_validator = self.clone();
+        controller_validator.errors.clear();
         self.visit_type2(target)?;
         let no_errors = self.errors.len() == error_count;
-        self.visit_type2(controller)?;
+        controller_validator.visit_type2(controller)?;
+        self.errors.extend(controller_validator.errors);
         if no_errors && self.errors.len() > error_count {
           for _ in 0..self.errors.len() - error_count {
             self.errors.pop();
